@@ -22,13 +22,16 @@ func init() {
 	register(&Driver{
 		ID:        "C15",
 		Technique: "exhaustive enumeration of source-configuration histories: all sequences of <=3 option steps (SetConfigLoader / AddConfigLoader / SetConfig(file) / Configure.AddLoaders) x loader kind (raw, file, command-line args) x six key trees, each a real start; reference model = deep merge of the individually parsed loader outputs in the container's loader sequence",
-		Rule:      "steps = {set, add, add-file, add-direct} x {raw, file, args} x 6 documents with overlapping and disjoint keys (nested map c.d / c.e, scalars a, b); all sequences of length <=3 (thorough: +length 4 over a reduced document set); observed through App.Get of every path of the union tree and a prefix-bound struct; non-trivial = >=2 effective sources",
+		Rule:      "steps = {set, add, add-file, add-direct} x {raw, file, args} x 6 documents with overlapping and disjoint keys (nested map c.d / c.e, scalars a, b); all sequences of length <=3 (thorough: +length 4 over a reduced document set); plus <=3 loaders handed over in one option with the same option used for two consecutive starts; observed through App.Get of every path of the union tree and a prefix-bound struct; non-trivial = >=2 effective sources",
 		Assumptions: []string{
 			"SetConfigLoader legitimately replaces earlier sources (it sets); every other option adds",
 			"two file loaders have equal rank: for a key both supply either value is accepted",
 			"documents never use one path as a map in one source and as a scalar in another",
 		},
-		Parts: []Part{{Name: "merge", Run: c15Run, QuickS: 90, ThoroughS: 900}},
+		Parts: []Part{
+			{Name: "merge", Run: c15Run, QuickS: 90, ThoroughS: 900},
+			{Name: "reuse", Run: c15Reuse, QuickS: 60, ThoroughS: 600},
+		},
 	})
 }
 
@@ -289,6 +292,130 @@ func c15Run(c *core.Ctx) {
 		c.Outcome(fmt.Sprintf("ok/sources=%d", len(eff)))
 		if c.S.Programs%15000 == 1 {
 			c.Sample(map[string]any{"steps": desc(), "effective": got})
+		}
+	})
+}
+
+// ---- several loaders handed over in one option, and the same options used for a second start:
+// sequencing the loaders of one container must not disturb what the caller configured.
+
+type c15ReuseCase struct {
+	Way     string    `json:"way"` // set (SetConfigLoader(l...)) or add (AddConfigLoader(l...))
+	Loaders []c15Step `json:"loaders"`
+}
+
+func c15Reuse(c *core.Ctx) {
+	c15Setup()
+	gen := func(yield func(c15ReuseCase) bool) {
+		var ls []c15Step
+		for d := range c15Docs {
+			for _, k := range []string{"raw", "file", "args"} {
+				ls = append(ls, c15Step{Kind: k, Doc: d})
+			}
+		}
+		for _, way := range []string{"set", "add"} {
+			for _, a := range ls {
+				for _, b := range ls {
+					if !yield(c15ReuseCase{way, []c15Step{a, b}}) {
+						return
+					}
+					if way == "add" && !c.Thorough() {
+						continue
+					}
+					for _, d := range ls {
+						if !yield(c15ReuseCase{way, []c15Step{a, b, d}}) {
+							return
+						}
+					}
+				}
+			}
+		}
+	}
+	Cases(c, gen, func(c *core.Ctx, cs c15ReuseCase) {
+		var loaders []configure.Loader
+		admissible := map[string]map[string]bool{}
+		type src struct {
+			file bool
+			vals map[string]string
+		}
+		var eff []src
+		for _, s := range cs.Loaders {
+			switch s.Kind {
+			case "raw":
+				loaders = append(loaders, loader.NewRawLoader([]byte(c15Docs[s.Doc].yaml)))
+			case "file":
+				loaders = append(loaders, loader.NewFileLoader(c15Files[s.Doc]))
+			default:
+				loaders = append(loaders, loader.NewArgsLoader(c15Docs[s.Doc].args))
+			}
+			m := map[string]any{}
+			yaml.Unmarshal([]byte(c15Docs[s.Doc].yaml), &m)
+			vals := map[string]string{}
+			c15Flatten("", m, vals)
+			eff = append(eff, src{s.Kind == "file", vals})
+		}
+		for _, p := range c15Paths {
+			adm := map[string]bool{}
+			last := ""
+			for _, e := range eff {
+				if v, ok := e.vals[p]; ok && e.file {
+					adm[v] = true
+				}
+			}
+			for _, e := range eff {
+				if v, ok := e.vals[p]; ok && !e.file {
+					last = v
+				}
+			}
+			if last != "" {
+				adm = map[string]bool{last: true}
+			}
+			if len(adm) > 0 {
+				admissible[p] = adm
+			}
+		}
+		// the options are built once and used for two consecutive containers
+		var opt app.SettingOption
+		if cs.Way == "set" {
+			opt = app.SetConfigLoader(loaders...)
+		} else {
+			opt = app.AddConfigLoader(loaders...)
+		}
+		c.S.Programs++
+		c.S.Nontrivial++
+		key := "C15/reuse/" + core.Hash(cs)
+		for round := 1; round <= 2; round++ {
+			got := map[string]string{}
+			o := scen.Start(scen.StartSpec{Ch: envx.Fixed("", nil), Comps: []any{&c15Holder{}}, Opts: []app.SettingOption{opt}, After: func(o *scen.StartObs) {
+				for _, p := range c15Paths {
+					if v := o.App.Get(p); v != nil {
+						got[p] = fmt.Sprint(v)
+					}
+				}
+			}})
+			c.S.Evaluations++
+			c.S.States++
+			c.S.Transitions += int64(len(loaders))
+			if !o.OK() {
+				c.Outcome("start-failed")
+				c.Report(key, "start-failed", fmt.Sprintf("%s(%v) start %d failed: %v %s", cs.Way, cs.Loaders, round, scen.FirstLine(o.Err), o.Panic), cs)
+				return
+			}
+			for _, p := range c15Paths {
+				if adm, ok := admissible[p]; (ok && !adm[got[p]]) || (!ok && got[p] != "") {
+					kind := "wrong-value"
+					if got[p] == "" {
+						kind = "source-dropped"
+					}
+					c.Outcome(fmt.Sprintf("round%d/%s", round, kind))
+					c.Report(key, kind, fmt.Sprintf("%s of loaders %v, start %d with the same option: effective value of %q is %q, admissible %v", cs.Way, cs.Loaders, round, p, got[p], adm), cs)
+					return
+				}
+			}
+		}
+		c.Outcome("both-starts-as-reference")
+		if c.S.Programs%2000 == 1 {
+			c.Sample(map[string]any{"way": cs.Way, "loaders": cs.Loaders})
 		}
 	})
 }
